@@ -55,6 +55,14 @@ TExtract ==
   /\ UNCHANGED pool /\ Same /\ Step
 
 \* the user mutates their own model between calls: nothing the interface does may depend on it
+\* a call that may have failed half-way (a node function raised): nothing observable changes, and - checked by the
+\* events that follow - later calls are unaffected by whatever it left in the interface's private model
+TFailedCall ==
+  /\ IsEvent("failed_call")
+  /\ Chk("failed_call_leaves_argument_state_unchanged", Ev.arg_unchanged)
+  /\ Chk("failed_call_leaves_users_model_unchanged", Ev.user_unchanged)
+  /\ UNCHANGED pool /\ Same /\ Step
+
 TUserAssign == IsEvent("user_assign") /\ UNCHANGED pool /\ Same /\ Step
 
 \* --- numeric regime: eager / jit / vmap / direct assignment ---------------------------------
@@ -82,5 +90,5 @@ TPlain ==
   /\ Chk("log_prob_reads_the_state", Ev.lp = Ev.expected_lp)
   /\ UNCHANGED pool /\ Same /\ Step
 
-TNext == TState \/ TUpdateState \/ TExtract \/ TUserAssign \/ TNumeric \/ TPlain
+TNext == TState \/ TFailedCall \/ TUpdateState \/ TExtract \/ TUserAssign \/ TNumeric \/ TPlain
 =============================================================================
